@@ -1308,6 +1308,10 @@ class Substitution(Rule):
         if e.is_integral():
             ctx2.add_condition(expr.Op(">", Var(e.var), e.lower))
             ctx2.add_condition(expr.Op("<", Var(e.var), e.upper))
+        if e.is_integral():
+            conds2 = ctx2.get_conds()
+            if not (conds2.is_not_negative(dfx) or conds2.is_not_positive(dfx)):
+                raise AssertionError("Substitution: cannot show that %s is monotone on the interval" % var_subst)
         body = normalize(e.body / dfx, ctx2.get_conds())
         body_subst = body.replace(var_subst, var_name)
         if e.var not in body_subst.get_vars():
